@@ -11,7 +11,7 @@
 //   - variables: &v of ≥ 200 generated package variables (verifh/targets/c10vars); in the default
 //     link mode additionally every entry of the ELF symbol table (non-PIE: value == address).
 //
-// For every name: the lookup itself, the lookup through the *other* API, and five near-miss
+// For every name: the lookup itself, the lookup through the *other* API, and eight near-miss
 // mutations. Oracle: a returned address must be the address of a symbol that bears exactly the
 // queried name; in the default link mode a present, unambiguous name must resolve. A panic
 // counts as an error.
@@ -42,7 +42,7 @@ type Case struct {
 	Sub      string `json:"sub"`      // link configuration: default | strip | pie
 	API      string `json:"api"`      // FindFuncByName | FindVarByName
 	Base     string `json:"base"`     // table name the query was derived from
-	Mutation string `json:"mutation"` // "" (the name itself) or one of the five near-miss kinds
+	Mutation string `json:"mutation"` // "" (the name itself) or one of the near-miss kinds
 	Query    string `json:"query"`    // the string handed to goom
 }
 
@@ -51,7 +51,7 @@ const (
 	apiVar  = "FindVarByName"
 )
 
-var mutationKinds = []string{"drop-last-byte", "append-0", "swap-case-of-base", "strip-package", "duplicate-last-dot", "unescape-import-path"}
+var mutationKinds = []string{"drop-last-byte", "append-0", "swap-case-of-base", "strip-package", "duplicate-last-dot", "unescape-import-path", "import-path-without-first-element", "import-path-last-element-only"}
 
 var keepDot = dotpkg.Keep(1)
 
@@ -121,6 +121,16 @@ func mutate(name string, k int) (string, bool) {
 	case 5:
 		if c := canon(name); c != name {
 			return c, true
+		}
+		return "", false
+	case 6: // the import path without its first element ("tencent/goom/test.foo")
+		if i := strings.IndexByte(name, '/'); i >= 0 && i+1 < len(name) {
+			return name[i+1:], true
+		}
+		return "", false
+	case 7: // only the last element of the import path ("test.foo")
+		if i := strings.LastIndexByte(name, '/'); i >= 0 && i+1 < len(name) && strings.IndexByte(name, '/') != i {
+			return name[i+1:], true
 		}
 		return "", false
 	}
